@@ -169,7 +169,7 @@ pub fn eval(expr: Node) -> Result<f64, Box<dyn error::Error>> {
             if args.len() > 1 {
                 let mut result = f64::INFINITY;
                 for arg in <Vec<Node> as Clone>::clone(&args).into_iter() {
-                    result = eval(arg).unwrap().min(result);
+                    result = eval(arg)?.min(result);
                 }
                 Ok(result)
             } else {
@@ -183,7 +183,7 @@ pub fn eval(expr: Node) -> Result<f64, Box<dyn error::Error>> {
             if args.len() > 1 {
                 let mut result = f64::NEG_INFINITY;
                 for arg in <Vec<Node> as Clone>::clone(&args).into_iter() {
-                    result = eval(arg).unwrap().max(result);
+                    result = eval(arg)?.max(result);
                 }
                 Ok(result)
             } else {
@@ -196,7 +196,7 @@ pub fn eval(expr: Node) -> Result<f64, Box<dyn error::Error>> {
         Avg(args) => {
             let mut result = 0.0;
             for arg in <Vec<Node> as Clone>::clone(&args).into_iter() {
-                result += eval(arg).unwrap();
+                result += eval(arg)?;
             }
             let len = args.len() as f64;
             Ok(result / len)
@@ -204,9 +204,9 @@ pub fn eval(expr: Node) -> Result<f64, Box<dyn error::Error>> {
         Med(args) => {
             let mut results = vec![];
             for arg in <Vec<Node> as Clone>::clone(&args).into_iter() {
-                results.push(eval(arg).unwrap());
+                results.push(eval(arg)?);
             }
-            results.sort_by(|a, b| a.partial_cmp(b).unwrap());
+            results.sort_by(|a, b| a.total_cmp(b));
             let len = results.len();
             if len % 2 == 0 {
                 Ok((results[len >> 1] + results[(len >> 1) - 1]) / 2.0)
